@@ -57,7 +57,12 @@ fn special_a(t: &mut Tape) -> f64 {
 }
 
 pub fn gen_p(t: &mut Tape, a: f64) -> (f64, &'static str) {
-    match t.weighted(&[0.25, 0.07, 0.09, 0.1, 0.02, 0.12, 0.2, 0.15]) {
+    match t.weighted(&[0.23, 0.07, 0.09, 0.1, 0.02, 0.12, 0.2, 0.13, 0.04]) {
+        8 => {
+            // the very bottom of the f64 range (subnormal probabilities) and the two sides of p = 1/2
+            let v = *t.pick(&[5e-324, 1e-323, 1e-320, 1e-310, 2.2250738585072014e-308, 1e-305, 0.5, 0.49999999999999994, 0.5000000000000001, 0.4999999999999999, 0.5000000000000002]);
+            (v, "p:subnormal-or-half")
+        }
         7 => {
             // p = P(a, x*) for x* next to a distinguished abscissa (shape, mode, shape +- sqrt, multiples):
             // the region where the asymptotic starting value w is closest to a
@@ -78,7 +83,9 @@ pub fn gen_p(t: &mut Tape, a: f64) -> (f64, &'static str) {
         _ => {
             // p such that b = (1-p) Gamma(a) sits next to a branch threshold
             let ga = gamma_fn(a);
-            let b0 = *t.pick(&[0.6, 0.45, 0.35, 0.15, 0.01, 1e-28, 1e-7]);
+            // for a > 1 the large-quantile branch switches at b = 10^-max(2, a(a-1))
+            let dd_ = (a * (a - 1.0)).max(2.0);
+            let b0 = *t.pick(&[0.6, 0.45, 0.35, 0.15, 0.01, 1e-28, 1e-7, 10f64.powf(-dd_), 10f64.powf(-dd_)]);
             let b = b0 * (1.0 + t.uniform(-1e-3, 1e-3) * (t.below(3) as f64));
             let p = 1.0 - b / ga;
             if p >= 0.0 && p < 1.0 {
